@@ -704,7 +704,7 @@ func c10Meek(c *harness.Ctx) {
 	srv := &meekServer{c: c, sessions: map[string]int{}, ending: &ending, faulty: true}
 	srv.downTotal = 1 << 40
 	srv.respPlan = func() int { return []int{0, 1, 1000, 65536}[t.Draw("resp", 4)] }
-	op := []string{"status-500", "status-mixed", "drop-conn", "garbage-response", "truncated-response", "slow-response", "stall-then-cut-with-full-queue"}[t.Draw("op", 7)]
+	op := []string{"status-500", "status-mixed", "drop-conn", "garbage-response", "truncated-response", "slow-response", "stall-then-cut-with-full-queue", "huge-declared-length"}[t.Draw("op", 8)]
 	c.Info["op"] = op
 	c.Feature("meek-" + op)
 	if op == "status-500" {
@@ -752,6 +752,27 @@ func c10Meek(c *harness.Ctx) {
 			})
 			return l.A, nil
 		}
+		if op == "huge-declared-length" {
+			// a 200 response that announces a body of 64 MiB .. 1 GiB, sends a
+			// little of it and goes quiet: what the client holds for this
+			// connection must not depend on what the peer merely announces
+			declared := []int{64 << 20, 256 << 20, 1 << 30}[t.Draw("declared", 3)]
+			some := 1 + t.Draw("some", 3000)
+			c.S.Go(name+"/announce", func() {
+				buf := make([]byte, 4096)
+				if _, err := l.B.Read(buf); err != nil {
+					return
+				}
+				l.B.Write([]byte(fmt.Sprintf("HTTP/1.1 200 OK\r\nContent-Type: application/octet-stream\r\nContent-Length: %d\r\n\r\n", declared)))
+				l.B.Write(make([]byte, some))
+				for {
+					if _, err := l.B.Read(buf); err != nil {
+						return
+					}
+				}
+			})
+			return l.A, nil
+		}
 		if op == "garbage-response" {
 			c.S.Go(name+"/garbage", func() {
 				buf := make([]byte, 4096)
@@ -774,10 +795,29 @@ func c10Meek(c *harness.Ctx) {
 	args.Add("url", "http://meek.example/")
 	pa, _ := cf.ParseArgs(args)
 	var wrDone, rdDone, closeDone bool
+	var ms runtime.MemStats
+	heap := func() int64 {
+		runtime.GC()
+		runtime.ReadMemStats(&ms)
+		return int64(ms.HeapAlloc)
+	}
 	c.S.Go("c/main", func() {
+		var heapBefore int64
+		if op == "huge-declared-length" {
+			heapBefore = heap()
+		}
 		conn, err := cf.Dial("tcp", "meek.example:80", dialFn, pa)
 		if err != nil {
 			return
+		}
+		if op == "huge-declared-length" {
+			c.S.Go("c/heap", func() {
+				c.S.Sleep(time.Duration(2+t.Draw("measure-after", 20)) * time.Second)
+				if growth := heap() - heapBefore; growth > 6<<20 {
+					c.Violate("C10/unbounded-buffering", "meek_lite: the server announced a huge response body, sent a few bytes of it and went quiet; the client's heap grew by %d KiB (bound 6 MiB per connection)", growth>>10)
+				}
+				c.Feature("meek-announced-length-measured")
+			})
 		}
 		c.S.Go("c/reader", func() {
 			buf := make([]byte, 32768)
@@ -815,7 +855,11 @@ func c10Meek(c *harness.Ctx) {
 		c.Violate("C10/write-never-returns", "meek_lite with %s: a Write is still blocked after 3 virtual hours", op)
 	} else if !closeDone {
 		c.Violate("C10/close-never-returns", "meek_lite with %s: Close did not return", op)
-	} else if !rdDone && op != "slow-response" {
+	} else if !rdDone && op != "slow-response" && op != "huge-declared-length" {
+		// (a response that stalls forever is neither a failed nor a cut
+		// connection: meek's Close does not interrupt the round trip in
+		// progress, so a Read pending at Close stays pending with it - see
+		// DESIGN.md 9.7, an observation outside the listed properties)
 		c.Violate("C10/read-never-returns", "meek_lite with %s: Read still blocked 3 virtual hours after Close", op)
 	}
 	ending = true
